@@ -581,21 +581,32 @@ class GenericPlainRegistry(Generic[QuantityT, UnitT], metaclass=RegistryMeta):
                 if dim_name not in self._dimensions:
                     self._add_dimension(DimensionDefinition(dim_name))
 
+        names = {definition.name, definition.symbol, *definition.aliases}
+        redefinition = self._initialized and not names.isdisjoint(self._units)
+
         self._helper_adder(definition, self._units, self._units_casei)
 
         if self._initialized:
-            self._forget_memoized_readings(
-                {definition.name, definition.symbol, *definition.aliases}
-            )
+            self._forget_memoized_readings(names, redefinition)
 
-    def _forget_memoized_readings(self, names: set[str]) -> None:
+    def _forget_memoized_readings(
+        self, names: set[str], redefinition: bool = False
+    ) -> None:
         """Drop memoized answers that mention a name which has just been defined.
 
         Before its definition the name may have been read as prefix + unit
         (e.g. ``dab`` as decabarn); the exact name takes precedence from now on.
+
+        When an existing unit is defined again, the answers memoized for the units
+        defined in terms of it are stale as well: drop them all.
         """
         cache = self._cache
         cache.parse_unit.clear()
+        if redefinition:
+            cache.root_units.clear()
+            cache.dimensionality.clear()
+            cache.conversion_factor.clear()
+            return
         for memo in (cache.root_units, cache.dimensionality):
             for key in [k for k in memo if not names.isdisjoint(k)]:
                 del memo[key]
